@@ -435,6 +435,7 @@ def swActualCause (n : Node) (op : Op) (x : Sw) (new : SwH) : Prop :=
   | .sw _ nm .fix => n.power = .on ∧ nm = x.name ∧ x.op = .running ∧ x.canFix = true ∧ new = .fixing
   /- first start / run -/
   | .sw _ nm .start => n.power = .on ∧ nm = x.name ∧ x.actual = .unused ∧ new = .good
+  | .sw _ nm .execute => n.power = .on ∧ nm = x.name ∧ x.actual = .unused ∧ new = .good
   | .appRun nm => n.power = .on ∧ nm = x.name ∧ x.actual = .unused ∧ new = .good
   | .startup => x.actual = .unused ∧ new = .good
   /- a timestep: first start at the end of booting, timed completion of a fix, timed completion of an installation -/
@@ -579,6 +580,14 @@ theorem C14_sw_actual_only_by_event (n : Node) (op : Op) (i : Nat) (x x' : Sw)
           · exact absurd rfl hne
         case compromise => exact ⟨trivial, hn.symm, rfl⟩
         case start =>
+          split at hne
+          · rename_i hs
+            simp only [hs, if_true] at ⊢
+            rcases x.wake_rel.actual with e | ⟨u, g⟩
+            · exact absurd e hne
+            · exact ⟨trivial, hn.symm, u, g⟩
+          · exact absurd rfl hne
+        case execute =>
           split at hne
           · rename_i hs
             simp only [hs, if_true] at ⊢
@@ -763,6 +772,7 @@ theorem Sw.handle_fixing (x : Sw) (c : Int) (r : SwReq) (hr : r ≠ .compromise)
   case fix => unfold Sw.fix Sw.canFix; simp [ha]; exact ⟨ha, hc, ho⟩
   case compromise => exact absurd rfl hr
   case start => rw [hw]; split <;> first | exact ⟨ha, hc, ho⟩ | exact ⟨ha, hc, by simp⟩
+  case execute => rw [hw]; split <;> first | exact ⟨ha, hc, ho⟩ | exact ⟨ha, hc, by simp⟩
   all_goals ((repeat' split) <;> first | exact ⟨ha, hc, ho⟩ | exact ⟨ha, hc, by simp⟩)
 
 theorem Sw.auxTick_not_installing (x : Sw) (h : x.op ≠ .installing) :
@@ -1448,6 +1458,12 @@ theorem Sw.handle_fixOk (x : Sw) (r : SwReq) (hx : x.FixOk) : (x.handle r).1.Fix
     · exact hx
   case compromise => intro h; cases h
   case start =>
+    split
+    · intro h
+      have := Sw.FixOk.of_rel x.wake_rel hx h
+      exact this
+    · exact hx
+  case execute =>
     split
     · intro h
       have := Sw.FixOk.of_rel x.wake_rel hx h
